@@ -374,6 +374,11 @@ func (o *oidcHandler) retrieveTokens(ctx context.Context, log telemetry.Logger, 
 	// have taken to retrieve the token.
 	expiresIn := time.Duration(bodyTokens.ExpiresIn)*time.Second - 5
 	accessTokenExpiration := o.clock.Now().Add(expiresIn)
+	if bodyTokens.ExpiresIn <= 0 {
+		// expires_in is optional (RFC 6749 section 5.1). When the provider omits it the expiry of the access
+		// token is unknown, not "already expired": store no expiry instead of a time in the past.
+		accessTokenExpiration = time.Time{}
+	}
 
 	log.Debug("saving tokens to session store")
 	if err := store.SetTokenResponse(ctx, sessionID, &oidc.TokenResponse{
